@@ -128,7 +128,7 @@ class Verifier:
             if ob.status != 'failed':
                 ob.status = 'failed'
                 try:
-                    m = ex.solver.model()
+                    m = self.small_model(ex, f) or ex.solver.model()
                     ob.model = self.model_json(ex, m)
                 except Exception as e:  # pragma: no cover
                     ob.model = {'error': str(e)}
@@ -144,6 +144,26 @@ class Verifier:
                 ob.status = 'failed'; ob.where = 'line %s' % ex.cur_loc; ob.smt2 = self.dump(ex, f, oid); return
             ob.status = 'unknown'; ob.where = 'line %s (%s)' % (ex.cur_loc, ex.solver.reason_unknown())
             ob.smt2 = self.dump(ex, f, oid)
+
+    def small_model(self, ex, f):
+        """prefer a counter-model with short sequences / small integers (replayable)"""
+        cons = []
+        def walk(v):
+            ty = v.ty
+            if ty is TInt: cons.append(z3.And(v.t >= -3, v.t <= 6))
+            elif ty is TStr: cons.append(z3.Length(v.t) <= 6)
+            elif isinstance(ty, TSeq): cons.append(v.t[0] <= 3)
+            elif isinstance(ty, TOpt): walk(v.t[1])
+            elif isinstance(ty, TTuple): [walk(x) for x in v.t]
+            elif isinstance(ty, TRec): [walk(x) for x in v.t.values()]
+        for v in self.cur_inputs.values(): walk(v)
+        if not cons: return None
+        ex.solver.set('timeout', 3000)
+        try:
+            for sub in (cons, [c for c in cons if 'Length' in str(c) or '<= 3' in str(c)]):
+                if ex.solver.check(z3.Not(f), *sub) == z3.sat: return ex.solver.model()
+        finally: ex.solver.set('timeout', self.timeout_ms)
+        return None
 
     def retry(self, ex, f):
         s = z3.Solver(); s.set('timeout', self.timeout_ms * 2)
